@@ -63,6 +63,43 @@ func c04Input(w *workspace, variant int, r *rand.Rand) {
 		adjRows = append(adjRows, []string{"", "2", "abc"})
 	}
 	w.writeCSVBook(sub, bookSpec{Name: "Adj", Sheets: []sheetSpec{{Name: "AdjConf", Rows: adjRows, Meta: map[string]string{"AdjacentKey": "true"}}}})
+	// two sheets of one name in different workbooks, told apart by alias, each referred to by a column of another
+	// workbook (refer "Sheet(Alias).Column"): which refer is checked first depends on map order and goroutine timing
+	pool := func(alias string, ids ...int) sheetSpec {
+		rows := [][]string{{"ID", "Name"}, {"map<uint32, " + alias + "Item>", "string"}, {"id", "name"}}
+		for _, id := range ids {
+			rows = append(rows, []string{strconv.Itoa(id), "p" + strconv.Itoa(id)})
+		}
+		return sheetSpec{Name: "Pool", Rows: rows, Meta: map[string]string{"Alias": alias}}
+	}
+	w.writeCSVBook(sub, bookSpec{Name: "PoolA", Sheets: []sheetSpec{pool("GearPool", 1, 2, 3)}})
+	w.writeCSVBook(sub, bookSpec{Name: "PoolB", Sheets: []sheetSpec{pool("GemPool", 4, 5)}})
+	referSheet := func(name, alias string, vals ...int) sheetSpec {
+		rows := [][]string{{"ID", "PoolID"}, {"map<uint32, " + name + "Item>", `uint32|{refer:"Pool(` + alias + `).ID"}`}, {"id", "pool id"}}
+		for i, v := range vals {
+			rows = append(rows, []string{strconv.Itoa(i + 1), strconv.Itoa(v)})
+		}
+		return sheetSpec{Name: name, Rows: rows}
+	}
+	w.writeCSVBook(sub, bookSpec{Name: "Reward", Sheets: []sheetSpec{referSheet("DropConf", "GearPool", 1, 2, 3), referSheet("LootConf", "GemPool", 4, 5)}})
+	w.writeCSVBook(sub, bookSpec{Name: "Bonus", Sheets: []sheetSpec{referSheet("BonusConf", "GemPool", 5, 4)}})
+	// transposed sheets (one record per column) with a blank column between filled ones: the pooled row cells of
+	// the skipped column are released on a path of their own
+	for k := 1; k <= 4; k++ {
+		rows := [][]string{{"ID", "map<uint32, Mall" + strconv.Itoa(k) + ">", "id"}, {"Name", "string", "name"}, {"Price", "int32", "price"}}
+		for c := 1; c <= 6; c++ {
+			if c == 2 || c == 5 {
+				for i := range rows {
+					rows[i] = append(rows[i], "")
+				}
+				continue
+			}
+			rows[0] = append(rows[0], strconv.Itoa(100*k+c))
+			rows[1] = append(rows[1], fmt.Sprintf("mall-%d-%d", k, c))
+			rows[2] = append(rows[2], strconv.Itoa(1000*k+c))
+		}
+		w.writeCSVBook(sub, bookSpec{Name: "Mall" + strconv.Itoa(k), Sheets: []sheetSpec{{Name: "Mall" + strconv.Itoa(k) + "Conf", Rows: rows, Meta: map[string]string{"Transpose": "true"}}}})
+	}
 	if variant&1 == 1 && variant&16 == 0 {
 		// a single defect: one bad cell in one secondary merger book
 		w.writeCSVBook(sub, bookSpec{Name: "Zone3", Sheets: []sheetSpec{{Name: "ZoneConf", Rows: [][]string{{"ID", "Name"}, {"t", "t"}, {"n", "n"}, {"30", "a"}, {"bad!", "b"}}}}, NoMeta: true})
